@@ -218,7 +218,12 @@ def experiments(draw, n_max=6, units=("kg/(m2*h*kPa)",), exact_arrhenius=None, t
             val = p_ref * math.exp(-ea_true / 8.314462 * (1.0 / t - 1.0 / t_ref))
             val = min(max(val, 1e-300), 1e300)
         else:
-            val = draw(loguniform(1e-6, 1.0))
+            # Arrhenius line + bounded noise, so that the regressed activation energy stays within ~30 kJ/mol of Ea_true
+            # (the property quantifies over activation energies -60..120 kJ/mol, stated or unstated)
+            spread = (1.0 / min(temps) - 1.0 / max(temps)) if n > 1 else 1.0
+            amp = min(1.0, 1800.0 * spread)
+            val = p_ref * math.exp(-ea_true / 8.314462 * (1.0 / t - 1.0 / t_ref) + amp * draw(uniform(-1.0, 1.0)))
+            val = min(max(val, 1e-300), 1e300)
         if stated == "all":
             ea = ea_true if exact else draw(uniform(-60000.0, 120000.0))
         elif stated == "none":
